@@ -588,6 +588,7 @@ func (x *Exec) applyContract(fr *Frame, ci *calleeInfo, c *ssa.CallCommon, args 
 		x.vc.assume(reach, g)
 	}
 	x.vc.comment("---- " + site + ": contract of " + ct.Key)
+	prePrefix := len(x.vc.lines)
 	// havoc
 	if !ct.Pure {
 		nc := x.vc.fresh("ctr", SInt)
@@ -626,6 +627,10 @@ func (x *Exec) applyContract(fr *Frame, ci *calleeInfo, c *ssa.CallCommon, args 
 	}
 	for _, e := range ct.Ensures {
 		x.vc.assume(reach, x.evalClause(post, e))
+	}
+	if ct.Kind != "func" && len(ct.Ensures) > 0 && fr.top {
+		// an assumed (trusted / extern / interface) contract must not contradict the caller's state
+		x.vc.obls = append(x.vc.obls, &Obligation{Name: x.vc.funcKey + "/vacuity[after " + site + "]", Kind: "vacuity", Prefix: len(x.vc.lines), PrePrefix: prePrefix, Reach: reach, Goal: tFalse, Func: x.vc.funcKey, Expect: "sat", Pos: pos, Info: "the assumed contract of " + ct.Key + " is satisfiable at this call"})
 	}
 	// caller's point assertions
 	if fr.top && fr.contract != nil {
